@@ -76,7 +76,31 @@ theorem all_ended_restores_base (c : Case) (tr : List Pop) (k : Nat) (hwf : WF c
   · rw [h.blocked a b]; simp [specBlocked, sumOver]
   · rw [h.lat a b]; simp [specLat, sumOver]
   · rw [h.loss a b]; simp [specLoss, sumOver]
-  · rw [h.cap]; simp [specCap, prodOver]
+  · rw [h.cap]; simp [specCap, specCapB, prodOver]
+
+/-- **capacity_tracks_live_configuration** — at every point of every run the effective capacity is
+    the capacity the model has *currently* configured (`St.base`: what the resource was built with,
+    or what the model last passed to `Resource.set_capacity` — before, inside or between windows)
+    times the factors of exactly the `ReduceCapacity` windows active at that point; with no window
+    active it is that configured capacity itself -/
+theorem capacity_tracks_live_configuration (c : Case) (tr : List Pop) (k : Nat) (hwf : WF c.faults tr)
+    (hl : Legit c tr) :
+    (stateAt c tr k).ws.capOf (stateAt c tr k).base =
+      specCapB c (stateAt c tr k).base (activeAfter c.faults (tr.take k)) ∧
+    (activeAfter c.faults (tr.take k) = [] →
+      (stateAt c tr k).ws.capOf (stateAt c tr k).base = (stateAt c tr k).base * SC) := by
+  have h := (effect_iff_active c tr k hwf hl).capB (stateAt c tr k).base
+  refine ⟨h, fun hend => ?_⟩
+  rw [h, hend]; simp [specCapB, prodOver]
+
+/-- the configured capacity is what the model last set -/
+theorem setcap_sets_base (c : Case) (tr : List Pop) (k t v : Nat) (hp : tr[k]? = some (.setcap t v)) :
+    (stateAt c tr (k + 1)).base = v ∧ (stateAt c tr (k + 1)).ws = (stateAt c tr k).ws := by
+  rw [stateAt_succ c tr k _ hp]
+  have hb : (step c (stateAt c tr k) (.setcap t v)).1.base = v := by
+    simp only [step, popEntity, stepOpen, St.setCap]
+    split <;> simp [wake_base]
+  exact ⟨hb, (frame_step c _ (.setcap t v) rfl).1⟩
 
 /-- what "nothing happened to the workload" means for one step -/
 structure Untouched (s s' : St) : Prop where
@@ -237,7 +261,7 @@ theorem cancelled_fault_is_noop (c : Case) (tr : List Pop) (k f : Nat) (g : Faul
     rw [sumOver_congr _ (lossC c.faults · a b) (lossC c'.faults · a b)
           (fun x hx => by simp only [lossC, hk x hx])]
     rfl
-  · rw [h.cap]; unfold specCap
+  · rw [h.cap]; unfold specCap specCapB
     rw [prodOver_congr _ (capNum c.faults) (capNum c'.faults)
           (fun x hx => by simp only [capNum, hk x hx]),
         prodOver_congr _ (capDen c.faults) (capDen c'.faults)
